@@ -237,6 +237,10 @@ def run_case(case, ctx):
                 sub = cfg["subsets"]
                 refb = out["ref_before"]
                 size = int((1 - (1 / sub)) * len(refb))
+                if not ev:
+                    # the estimate was not drawn through numpy.random.choice: it cannot be validated here (it remains an input)
+                    ctx.count("bootstrap_draws_not_observed")
+                    continue
                 okshape = len(ev) == sub and all(e[1][0] == len(refb) and e[2].get("size") == size and e[2].get("replace") is True for e in ev)
                 if not okshape:
                     ctx.violation("C07/bootstrap_draws", "call %d: the RNG log shows %d draws %s; expected %d draws of %d rows out of %d with replacement" % (
